@@ -15,7 +15,7 @@ meta = json.load(open(os.path.join(out, "meta.json")))
 conf = json.load(open(os.path.join(out, "confirm.json")))
 conf["with_change"]["failed_tests"] = [t for t in conf["with_change"]["failed_tests"] if "::" in t]
 meta["confirmed_by_me"] = {
-    "how": "tools/confirm_mutant.sh in the agent's scratch worktree: full workspace suite with change+demo, then with the source change stashed (demo kept)",
+    "how": "tools/confirm_mutant.sh in the agent's scratch worktree: full workspace suite with change+demo, then with the source change reverse-applied (demo kept)",
     "with_change": conf["with_change"], "without_change": conf["without_change"],
 }
 meta["checks_run"] = caught
